@@ -29,7 +29,7 @@ def fresh():
 
 
 def run_check(prop):
-    env = dict(os.environ, VERIF_REPO=SCRATCH, VERIF_OUT_DIR="/tmp/vst_out")
+    env = dict(os.environ, VERIF_REPO=SCRATCH, VERIF_OUT_DIR="/tmp/vst_out", VERIF_WORK_DIR="/tmp/vst_work", VERIF_CACHE_DIR="/tmp/vst_cache")
     r = subprocess.run([os.path.join(V, "check"), prop], env=env, stdout=subprocess.PIPE, stderr=subprocess.STDOUT, text=True, cwd=V)
     keys = []
     for line in r.stdout.splitlines():
